@@ -24,7 +24,7 @@ type c12fn struct {
 
 func newC12fn(top *ssa.Function) *c12fn {
 	w := &c12fn{top: top, mcs: map[*ssa.Function]*ssa.MakeClosure{}}
-	for _, f := range core.WithAnon(top) {
+	for _, f := range c12closures(top) {
 		for _, b := range f.Blocks {
 			for _, in := range b.Instrs {
 				if mc, ok := in.(*ssa.MakeClosure); ok {
@@ -34,6 +34,33 @@ func newC12fn(top *ssa.Function) *c12fn {
 		}
 	}
 	return w
+}
+
+// c12closures lists fn and the function literals it creates, transitively: the
+// functions named by a MakeClosure (or, for a literal without captures, used as
+// a plain function value) in fn or in one of those. Unlike fn.AnonFuncs this
+// follows what the code does: a literal that no instruction creates any more
+// (it was applied on the spot and inlined by the loader) is not listed, and the
+// closure of a helper that was inlined into fn is.
+func c12closures(fn *ssa.Function) []*ssa.Function {
+	if fn == nil {
+		return nil
+	}
+	out := []*ssa.Function{fn}
+	seen := map[*ssa.Function]bool{fn: true}
+	for i := 0; i < len(out); i++ {
+		for _, b := range out[i].Blocks {
+			for _, in := range b.Instrs {
+				for _, op := range in.Operands(nil) {
+					if g, ok := (*op).(*ssa.Function); ok && g.Parent() != nil && g.Blocks != nil && !seen[g] {
+						seen[g] = true
+						out = append(out, g)
+					}
+				}
+			}
+		}
+	}
+	return out
 }
 
 // cellRoot follows a free variable to the cell (Alloc) it is bound to in an enclosing function.
@@ -90,6 +117,169 @@ func (w *c12fn) cellStores(cell ssa.Value) []*ssa.Store {
 	}
 	visit(cell)
 	return out
+}
+
+// cellAccesses lists the stores to and the loads of a cell of the top method, in
+// the method and in every closure that captures the cell. clean is false when
+// the cell's address is used in any other way (passed on, compared, offset):
+// then something else may read or write it.
+func (w *c12fn) cellAccesses(cell ssa.Value) (stores []*ssa.Store, loads []*ssa.UnOp, clean bool) {
+	clean = true
+	seen := map[ssa.Value]bool{}
+	var visit func(c ssa.Value)
+	visit = func(c ssa.Value) {
+		if seen[c] {
+			return
+		}
+		seen[c] = true
+		if c.Referrers() == nil {
+			clean = false
+			return
+		}
+		for _, r := range *c.Referrers() {
+			switch x := r.(type) {
+			case *ssa.Store:
+				if x.Addr == c && x.Val != c {
+					stores = append(stores, x)
+				} else {
+					clean = false
+				}
+			case *ssa.UnOp:
+				if x.Op == token.MUL && x.X == c {
+					loads = append(loads, x)
+				} else {
+					clean = false
+				}
+			case *ssa.MakeClosure:
+				fn := x.Fn.(*ssa.Function)
+				for i, b := range x.Bindings {
+					if b == c && i < len(fn.FreeVars) {
+						visit(fn.FreeVars[i])
+					}
+				}
+			case *ssa.DebugRef:
+			default:
+				clean = false
+			}
+		}
+	}
+	visit(cell)
+	return
+}
+
+// soleCallOf resolves the one place where the function literal created by mc is
+// applied when it is not handed to anyone but called by the method's own code:
+// the value is followed through cells that are written once (a parameter of an
+// inlined helper that its closure captures) and through by-value captures. nil
+// when the value reaches anything but exactly one plain call as the callee
+// (passed as an argument, stored elsewhere, deferred, spawned, called twice).
+func (w *c12fn) soleCallOf(mc *ssa.MakeClosure) *ssa.Call {
+	if mc == nil {
+		return nil
+	}
+	var calls []*ssa.Call
+	ok := true
+	seen := map[ssa.Value]bool{}
+	var follow func(v ssa.Value)
+	follow = func(v ssa.Value) {
+		if seen[v] || !ok {
+			return
+		}
+		seen[v] = true
+		if v.Referrers() == nil {
+			ok = false
+			return
+		}
+		for _, r := range *v.Referrers() {
+			switch x := r.(type) {
+			case *ssa.DebugRef:
+			case *ssa.Call:
+				if x.Call.Value != v || x.Call.IsInvoke() {
+					ok = false
+					return
+				}
+				for _, a := range x.Call.Args {
+					if a == v {
+						ok = false
+						return
+					}
+				}
+				calls = append(calls, x)
+			case *ssa.Store:
+				cell, isCell := w.cellRoot(x.Addr).(*ssa.Alloc)
+				if x.Val != v || !isCell {
+					ok = false
+					return
+				}
+				sts, loads, clean := w.cellAccesses(cell)
+				if !clean || len(sts) != 1 {
+					ok = false
+					return
+				}
+				for _, l := range loads {
+					follow(l)
+				}
+			case *ssa.MakeClosure:
+				fn := x.Fn.(*ssa.Function)
+				for i, b := range x.Bindings {
+					if b == v {
+						if i >= len(fn.FreeVars) {
+							ok = false
+							return
+						}
+						follow(fn.FreeVars[i])
+					}
+				}
+			default:
+				ok = false
+				return
+			}
+		}
+	}
+	follow(mc)
+	if !ok || len(calls) != 1 {
+		return nil
+	}
+	return calls[0]
+}
+
+// capturedLoad resolves a load, inside a closure, of a cell of the top method
+// (a named result the closure assigns) to the value the closure stored: the
+// closure's only store to that cell, which dominates the load. Every other
+// store must be in the top method itself (which does not run while the closure
+// it handed to a callee runs) and the cell's address must not be used otherwise,
+// so nothing can change the cell between that store and the load. Any other
+// value, and a load that cannot be resolved, is returned unchanged.
+func (w *c12fn) capturedLoad(v ssa.Value) ssa.Value {
+	u, ok := v.(*ssa.UnOp)
+	if !ok || u.Op != token.MUL || u.Parent() == w.top {
+		return v
+	}
+	cell, ok := w.cellRoot(u.X).(*ssa.Alloc)
+	if !ok || cell.Parent() != w.top {
+		return v
+	}
+	sts, _, clean := w.cellAccesses(cell)
+	if !clean {
+		return v
+	}
+	var own *ssa.Store
+	for _, st := range sts {
+		switch st.Parent() {
+		case u.Parent():
+			if own != nil {
+				return v
+			}
+			own = st
+		case w.top:
+		default:
+			return v
+		}
+	}
+	if own == nil || !core.Dominates(own, u) {
+		return v
+	}
+	return own.Val
 }
 
 // paramIndex resolves v to the index of the top method's parameter it denotes
